@@ -65,30 +65,33 @@ var (
 		Name:       "id",
 		FromObject: func(o *Obj) index.KeySet { return index.NewKeySet(index.Key(o.ID)) },
 		FromKey:    func(k []byte) index.Key { return index.Key(k) },
+		FromString: hexKey,
 		Unique:     true,
 	}
 	uIndex = statedb.Index[*Obj, []byte]{
 		Name:       "u",
 		FromObject: func(o *Obj) index.KeySet { return keySet(o.U) },
 		FromKey:    func(k []byte) index.Key { return index.Key(k) },
+		FromString: hexKey,
 		Unique:     true,
 	}
 	nIndex = statedb.Index[*Obj, []byte]{
 		Name:       "n",
 		FromObject: func(o *Obj) index.KeySet { return keySet(o.N) },
 		FromKey:    func(k []byte) index.Key { return index.Key(k) },
+		FromString: hexKey,
 		Unique:     false,
 	}
 	luIndex = statedb.LPMIndex[*Obj]{
 		Name:       "lu",
 		FromObject: func(o *Obj) iter.Seq2[[]byte, statedb.PrefixLen] { return lkeySeq(o.LU) },
-		FromString: func(string) ([]byte, statedb.PrefixLen, error) { return nil, 0, fmt.Errorf("unsupported") },
+		FromString: lkeyFromString,
 		Unique:     true,
 	}
 	lnIndex = statedb.LPMIndex[*Obj]{
 		Name:       "ln",
 		FromObject: func(o *Obj) iter.Seq2[[]byte, statedb.PrefixLen] { return lkeySeq(o.LN) },
-		FromString: func(string) ([]byte, statedb.PrefixLen, error) { return nil, 0, fmt.Errorf("unsupported") },
+		FromString: lkeyFromString,
 		Unique:     false,
 	}
 )
@@ -140,6 +143,23 @@ func lq(tab int, which string, k LKey, lookup bool) statedb.Query[*Obj] {
 		return luIndex.Query(k.Data, statedb.PrefixLen(k.Len))
 	}
 	return lnIndex.Query(k.Data, statedb.PrefixLen(k.Len))
+}
+
+// string forms of keys for the untyped API: hex ("-" = empty) for the radix indexes, "<hex>:<len>" for LPMIndex,
+// netip syntax for NetIPPrefixIndex
+func hexKey(s string) (index.Key, error) { return index.Key(hx.UnHex(s)), nil }
+func lkeyFromString(s string) ([]byte, statedb.PrefixLen, error) {
+	k := parseLKey(s)
+	return k.Data, statedb.PrefixLen(k.Len), nil
+}
+func lkeyString(tab int, k LKey, lookup bool) string {
+	if tab == 1 {
+		if k.Len == 16 && lookup {
+			return lkeyAddr(k).String()
+		}
+		return netip.PrefixFrom(lkeyAddr(k), k.Len).String()
+	}
+	return fmt.Sprintf("%s:%d", hx.Hex(k.Data), k.Len)
 }
 
 func parseLKey(s string) LKey {
@@ -1031,6 +1051,87 @@ func (e *eng) Op(f []string, line string, out *hx.Out) {
 			}
 		}
 		// spec-level oracle (independent Go reference) for queries on the live state
+		if f[1] == "txn" || f[1] == "fresh" {
+			if want, ok := e.ref.query(f[1] == "txn", tab, f[3:]); ok && want != res {
+				bad += fmt.Sprintf(" !BAD:C04:query(want:%s)", strings.ReplaceAll(want, " ", "_"))
+			}
+		}
+		emit(tag, "%s", res)
+	case "aq":
+		// the query of a `q` op through statedb.AnyTable (index and key given as strings) and the sequence helpers
+		// Map / Filter / Collect / ToSeq / Values of iterator.go
+		txn, ok := e.source(f[1])
+		if !ok {
+			emit("M:*", "n/a")
+			return
+		}
+		tab := atoi(f[2])
+		at := statedb.AnyTable{Meta: e.tabs[tab]}
+		lpmIdx := len(f) > 5 && (f[4] == "lu" || f[4] == "ln")
+		if lpmIdx && (f[3] == "get" || f[3] == "list") && parseLKey(f[5]).Len != 16 {
+			emit("M:*", "n/a")
+			return
+		}
+		key := ""
+		if len(f) > 5 {
+			key = f[5]
+			if lpmIdx {
+				key = lkeyString(tab, parseLKey(f[5]), f[3] == "get" || f[3] == "list")
+			}
+		}
+		typed := func(seq iter.Seq2[any, statedb.Revision]) iter.Seq2[*Obj, statedb.Revision] {
+			return statedb.Filter(statedb.Map(seq, func(a any) *Obj { return a.(*Obj) }), func(o *Obj) bool { return o != nil })
+		}
+		var res string
+		var err error
+		switch f[3] {
+		case "get":
+			var a any
+			var rev statedb.Revision
+			var found bool
+			a, rev, found, err = at.Get(txn, f[4], key)
+			if found {
+				res = objS(a.(*Obj), rev)
+			} else {
+				res = "none"
+			}
+		case "num":
+			res = strconv.Itoa(at.NumObjects(txn))
+		default:
+			var seq iter.Seq2[any, statedb.Revision]
+			switch f[3] {
+			case "list":
+				seq, err = at.List(txn, f[4], key)
+			case "prefix":
+				seq, err = at.Prefix(txn, f[4], key)
+			case "lb":
+				seq, err = at.LowerBound(txn, f[4], key)
+			default:
+				seq = at.All(txn)
+			}
+			if err == nil {
+				res = seqS(typed(seq))
+				// Collect / ToSeq / Values see the same sequence
+				objs := statedb.Collect(typed(seq))
+				n, m := 0, 0
+				for range statedb.ToSeq(typed(seq)) {
+					n++
+				}
+				for range statedb.Values(typed(seq)) {
+					m++
+				}
+				if len(objs) != n || n != m || (len(objs) == 0) != (res == "[]") {
+					bad = " !BAD:C04:sequence-helpers-disagree"
+				}
+			}
+		}
+		if err != nil {
+			res = "err:" + hx.PanicClass(err.Error())
+		}
+		tag := "P:C04,C03,C09,C01,C02,C05"
+		if lpmIdx {
+			tag += ",C13"
+		}
 		if f[1] == "txn" || f[1] == "fresh" {
 			if want, ok := e.ref.query(f[1] == "txn", tab, f[3:]); ok && want != res {
 				bad += fmt.Sprintf(" !BAD:C04:query(want:%s)", strings.ReplaceAll(want, " ", "_"))
